@@ -88,7 +88,12 @@ def keepid_delete(v, h):
         return False
     before = set(h["infos"][step - 1].get("dup_ids", []))
     after = set(h["infos"][step].get("dup_ids", []))
-    return bool(before - after)
+    if before - after:
+        return True
+    # twins that are only reached through link lists (the sources a copied tag lists are copied with it, ids kept) are
+    # not "defined" twice in the walk: the premise of the finding is then read off the history - an earlier successful
+    # copy with kept ids inside this file
+    return any(op[0] == "copy" and op[4] and res[0] == "ok" for op, res in zip(h["ops"][:step], h["results"][:step]))
 
 
 def run(ctx):
